@@ -200,6 +200,17 @@ func isOpaqueNamed(t types.Type) bool {
 	return false
 }
 
+// isListElementValue: the exported Value field of container/list.Element is modelled as an ordinary heap field
+// (the list models in program.go store and read it); everything else of container/list stays opaque.
+func isListElementValue(owner types.Type, field int) bool {
+	n, ok := owner.(*types.Named)
+	if !ok || n.Obj().Pkg() == nil || n.Obj().Pkg().Path() != "container/list" || n.Obj().Name() != "Element" {
+		return false
+	}
+	st, ok := owner.Underlying().(*types.Struct)
+	return ok && field < st.NumFields() && st.Field(field).Name() == "Value"
+}
+
 // sortOf maps a Go type to an SMT sort, declaring datatypes on demand.
 func (vc *VC) sortOf(t types.Type) Sort {
 	if isTimeTime(t) {
